@@ -123,7 +123,11 @@ _list_search(struct list_struct *head, char *s)
 static int
 _strncmpend(char *s1, char *s2, int len)
 {
-    return strncmp(s1 + len - strlen(s2), s2, strlen(s2));
+    int l = strlen(s2);
+
+    if (len < l)
+        return -1;
+    return strncmp(s1 + len - l, s2, l);
 }
 
 /* Duplicate string [s] of length [len].
